@@ -3,9 +3,12 @@
  * liborc makes while acquiring executable memory can be failed by index.
  *
  * env FAULT_PLAN: "" (record only) | "i,j,..." (1-based global call indices to fail) |
- *                 "all-mkstemp" | "all-filemmap" | "all-anonmmap" | "all"
+ *                 "all-mkstemp" | "all-filemmap" | "all-anonmmap" | "all" |
+ *                 "after-init" | "after-init-filemmap" (the same, but only once orc_init() has returned)
  * args: variant bits (decimal): bit0 backup function registered, bit1 code-only executor (take_code),
- *       bits2-3 program kind (0 rule on target, 1 opcode without native rule, 2 register exhaustion)
+ *       bits2-3 program kind (0 rule on target, 1 opcode without native rule, 2 register exhaustion,
+ *                3 recompile history: compiled natively, recompiled for a target without a rule, chunk reused by another program),
+ *       bit4 hold: programs and their code stay alive until the end (code memory has to grow by new regions)
  *       reps (number of compile/run repetitions)
  * Prints one JSON line.
  */
@@ -24,7 +27,7 @@ int __real_ftruncate (int fd, off_t len);
 void *__real_mmap (void *a, size_t l, int p, int f, int fd, off_t o);
 
 static int ncalls, ninjected;
-static int plan_idx[64], nplan; static int plan_all_mkstemp, plan_all_filemmap, plan_all_anon, plan_all;
+static int plan_idx[64], nplan; static int plan_all_mkstemp, plan_all_filemmap, plan_all_anon, plan_all, plan_after_init, init_done;
 static char calllog[4096]; static char injlog[1024];
 
 static int should_fail (const char *kind, int is_file_mmap, int is_anon)
@@ -33,10 +36,12 @@ static int should_fail (const char *kind, int is_file_mmap, int is_anon)
   ncalls++;
   if (strlen (calllog) < sizeof calllog - 16) { strcat (calllog, kind); strcat (calllog, " "); }
   for (i = 0; i < nplan; i++) if (plan_idx[i] == ncalls) f = 1;
-  if (plan_all) f = 1;
-  if (plan_all_mkstemp && !strcmp (kind, "mkstemp")) f = 1;
-  if (plan_all_filemmap && is_file_mmap) f = 1;
-  if (plan_all_anon && is_anon) f = 1;
+  if (!plan_after_init || init_done) {
+    if (plan_all) f = 1;
+    if (plan_all_mkstemp && !strcmp (kind, "mkstemp")) f = 1;
+    if (plan_all_filemmap && is_file_mmap) f = 1;
+    if (plan_all_anon && is_anon) f = 1;
+  }
   if (f) { char t[32]; ninjected++; snprintf (t, sizeof t, "%d:%s ", ncalls, kind); if (strlen (injlog) < sizeof injlog - 40) strcat (injlog, t); }
   return f;
 }
@@ -72,6 +77,15 @@ static OrcProgram *make_program (int kind)
   OrcProgram *p = orc_program_new ();
   int d = orc_program_add_destination (p, 2, "d1"), s1 = orc_program_add_source (p, 2, "s1"), s2 = orc_program_add_source (p, 2, "s2");
   orc_program_set_name (p, "faultprog");
+  if (kind == 3) {
+    /* 8-byte add: sse/avx have a rule, mmx has none */
+    orc_program_free (p);
+    p = orc_program_new ();
+    d = orc_program_add_destination (p, 8, "d1"); s1 = orc_program_add_source (p, 8, "s1"); s2 = orc_program_add_source (p, 8, "s2");
+    orc_program_set_name (p, "faultprog3");
+    orc_program_append (p, "addq", d, s1, s2);
+    return p;
+  }
   if (kind == 0) orc_program_append (p, "addw", d, s1, s2);
   else if (kind == 1) {
     /* convussql has no native rule on any x86 target */
@@ -95,31 +109,46 @@ static OrcProgram *make_program (int kind)
   return p;
 }
 
+#define MAXHELD 6000
 int main (int argc, char **argv)
 {
   int variant = argc > 1 ? atoi (argv[1]) : 0, reps = argc > 2 ? atoi (argv[2]) : 1, r;
-  int with_backup = variant & 1, code_only = (variant >> 1) & 1, kind = (variant >> 2) & 3;
+  int with_backup = variant & 1, code_only = (variant >> 1) & 1, kind = (variant >> 2) & 3, hold = (variant >> 4) & 1, nheld = 0, held_reruns = 0;
+  static OrcProgram *held_p[MAXHELD]; static OrcCode *held_c[MAXHELD];
   const char *plan = getenv ("FAULT_PLAN");
   int calls_after_init, fds0 = -1, fds_early = -1, fds_end = -1, mismatches = 0, native_runs = 0, backup_bad = 0, emu_runs = 0, no_orccode = 0;
   int results[3] = { 0, 0, 0 };
   if (plan && *plan) {
     if (!strcmp (plan, "all")) plan_all = 1; else if (!strcmp (plan, "all-mkstemp")) plan_all_mkstemp = 1;
     else if (!strcmp (plan, "all-filemmap")) plan_all_filemmap = 1; else if (!strcmp (plan, "all-anonmmap")) plan_all_anon = 1;
+    else if (!strcmp (plan, "after-init")) plan_all = plan_after_init = 1; else if (!strcmp (plan, "after-init-filemmap")) plan_all_filemmap = plan_after_init = 1;
     else { const char *q = plan; while (*q && nplan < 64) { plan_idx[nplan++] = (int) strtol (q, (char **) &q, 10); if (*q == ',') q++; } }
   }
   orc_init ();
+  init_done = 1;
   calls_after_init = ncalls;
   fds0 = count_fds ();
   for (r = 0; r < reps; r++) {
-    OrcProgram *p = make_program (kind); OrcCompileResult res; OrcExecutor *ex; OrcCode *code = NULL;
-    static short a[64], b[64], dn[64], de[64]; int i, before;
+    OrcProgram *p = make_program (kind), *q = NULL; OrcCompileResult res; OrcExecutor *ex; OrcCode *code = NULL;
+    static short a[64] __attribute__ ((aligned (16))), b[64] __attribute__ ((aligned (16))), dn[64] __attribute__ ((aligned (16))), de[64] __attribute__ ((aligned (16)));
+    int i, before, n = kind == 3 ? 12 : 50;
     if (with_backup) orc_program_set_backup_function (p, backup_fn);
     res = orc_program_compile (p);
+    if (kind == 3) {
+      /* history: the program had native code; it is compiled again for a target that has no rule for it; the chunk it
+       * occupied is then reused by another program */
+      OrcTarget *mmx = orc_target_get_by_name ("mmx");
+      if (mmx) res = orc_program_compile_for_target (p, mmx);
+      q = orc_program_new ();
+      { int qd = orc_program_add_destination (q, 8, "d1"), qs1 = orc_program_add_source (q, 8, "s1"), qs2 = orc_program_add_source (q, 8, "s2");
+        orc_program_set_name (q, "faultprog3q"); orc_program_append (q, "subq", qd, qs1, qs2); }
+      orc_program_compile (q);
+    }
     results[ORC_COMPILE_RESULT_IS_SUCCESSFUL (res) ? 0 : ORC_COMPILE_RESULT_IS_FATAL (res) ? 2 : 1]++;
-    if (ORC_COMPILE_RESULT_IS_FATAL (res) || !p->orccode) { no_orccode++; orc_program_free (p); continue; }
+    if (ORC_COMPILE_RESULT_IS_FATAL (res) || !p->orccode) { no_orccode++; orc_program_free (p); if (q) orc_program_free (q); continue; }
     for (i = 0; i < 64; i++) { a[i] = (short) (i * 517 - 9000 + r); b[i] = (short) (i * 33 + 5); dn[i] = de[i] = 0x1111; }
     ex = orc_executor_new (p);
-    orc_executor_set_n (ex, 50); orc_executor_set_array (ex, ORC_VAR_S1, a); orc_executor_set_array (ex, ORC_VAR_S2, b);
+    orc_executor_set_n (ex, n); orc_executor_set_array (ex, ORC_VAR_S1, a); orc_executor_set_array (ex, ORC_VAR_S2, b);
     orc_executor_set_array (ex, ORC_VAR_D1, de);
     orc_executor_emulate (ex);
     orc_executor_set_array (ex, ORC_VAR_D1, dn);
@@ -127,7 +156,7 @@ int main (int argc, char **argv)
     if (code_only) {
       OrcExecutor ex2;
       code = orc_program_take_code (p);
-      memset (&ex2, 0, sizeof ex2); ex2.n = 50; ex2.arrays[ORC_VAR_A2] = code; ex2.arrays[ORC_VAR_D1] = dn; ex2.arrays[ORC_VAR_S1] = a; ex2.arrays[ORC_VAR_S2] = b;
+      memset (&ex2, 0, sizeof ex2); ex2.n = n; ex2.arrays[ORC_VAR_A2] = code; ex2.arrays[ORC_VAR_D1] = dn; ex2.arrays[ORC_VAR_S1] = a; ex2.arrays[ORC_VAR_S2] = b;
       orc_executor_run (&ex2);
     } else orc_executor_run (ex);
     if (backup_calls != before) {
@@ -139,14 +168,31 @@ int main (int argc, char **argv)
       if (ORC_COMPILE_RESULT_IS_SUCCESSFUL (res)) native_runs++; else emu_runs++;
     }
     orc_executor_free (ex);
-    if (code) orc_code_free (code);
-    orc_program_free (p);
+    if (q) orc_program_free (q);
+    if (hold && nheld < MAXHELD) { held_p[nheld] = p; held_c[nheld] = code; nheld++; }
+    else { if (code) orc_code_free (code); orc_program_free (p); }
     if (r == 19) fds_early = count_fds ();
+  }
+  /* held programs: still compute the right thing after all the later compiles, then released */
+  for (r = 0; r < nheld; r++) {
+    if (r % 37 == 0 && !held_c[r] && held_p[r]->orccode) {
+      static short a[64] __attribute__ ((aligned (16))), b[64] __attribute__ ((aligned (16))), dn[64] __attribute__ ((aligned (16))), de[64] __attribute__ ((aligned (16)));
+      OrcExecutor *ex = orc_executor_new (held_p[r]); int i, before = backup_calls;
+      for (i = 0; i < 64; i++) { a[i] = (short) (i * 51 + r); b[i] = (short) (i * 3 + 5); dn[i] = de[i] = 0x2222; }
+      orc_executor_set_n (ex, kind == 3 ? 12 : 50); orc_executor_set_array (ex, ORC_VAR_S1, a); orc_executor_set_array (ex, ORC_VAR_S2, b);
+      orc_executor_set_array (ex, ORC_VAR_D1, de); orc_executor_emulate (ex);
+      orc_executor_set_array (ex, ORC_VAR_D1, dn); orc_executor_run (ex);
+      if (backup_calls == before && memcmp (dn, de, sizeof dn)) mismatches++;
+      held_reruns++;
+      orc_executor_free (ex);
+    }
+    if (held_c[r]) orc_code_free (held_c[r]);
+    orc_program_free (held_p[r]);
   }
   fds_end = count_fds ();
   printf ("{\"variant\":%d,\"reps\":%d,\"calls\":%d,\"calls_after_init\":%d,\"injected\":%d,\"injlog\":\"%s\",\"calllog\":\"%.600s\",\"ok\":%d,\"nonfatal\":%d,\"fatal\":%d,"
-      "\"mismatches\":%d,\"native_runs\":%d,\"emulated_runs\":%d,\"backup_calls\":%d,\"backup_bad\":%d,\"no_orccode\":%d,\"fds0\":%d,\"fds_early\":%d,\"fds_end\":%d}\n",
-      variant, reps, ncalls, calls_after_init, ninjected, injlog, calllog, results[0], results[1], results[2], mismatches, native_runs, emu_runs, backup_calls, backup_bad, no_orccode,
+      "\"mismatches\":%d,\"native_runs\":%d,\"emulated_runs\":%d,\"backup_calls\":%d,\"backup_bad\":%d,\"no_orccode\":%d,\"held\":%d,\"held_reruns\":%d,\"fds0\":%d,\"fds_early\":%d,\"fds_end\":%d}\n",
+      variant, reps, ncalls, calls_after_init, ninjected, injlog, calllog, results[0], results[1], results[2], mismatches, native_runs, emu_runs, backup_calls, backup_bad, no_orccode, nheld, held_reruns,
       fds0, fds_early, fds_end);
   return 0;
 }
